@@ -7,7 +7,6 @@ Ties:
            REAL sourcemapx.Filter with a recording callback (gvh_c19 lines) vs the Lean driver on the same bytes/chunks
   js       REAL Filter.WriteJS (esbuild + defaultJSMappingCallback) after a prefix vs model (code as it is) vs spec
   ctx      REAL funcContext Write/Printf/SetPos/CatchOutput/Delayed scripts vs the Lean buffer model
-  rmws     REAL removeWhitespace keeps the hint sequence
   prog     generated Go programs compiled in process with maps, plain and minified: no magic byte in out.js, same
            bytes with and without map, mappings in range, statement starts, Node stack frames resolved through the map
 """
@@ -22,7 +21,7 @@ THEOREMS = ["hint_roundtrip", "writeTo_too_long", "enc_bytes", "payload_magic_sa
             "chunking_independent", "chunking_independent'", "code_split", "hints_removed", "output_magic_free",
             "positions_exact", "positions_exact_init", "columns_units", "columns_units_needs_ascii",
             "placeAt_correct", "offset_js_counterexample", "offset_js_partial", "offset_js_line",
-            "pending_flushed_by_write", "write_without_pending", "setPos_last_wins", "printf_hint_first",
+            "pending_flushed_by_write", "write_without_pending", "setPos_last_wins", "every_setpos_reported_counterexample", "printf_hint_first",
             "catch_restores", "stmt_position_exact"]
 
 # the fixed go/token.FileSet shared with harness/cmd/gvh_c19/lines.go (fileSpecs): name, size, line start offsets
@@ -270,6 +269,11 @@ def filter_tie(chk, tier):
         ops.append("srcmap filter norec %s -" % chunks_arg(chs))
         ops.append("srcmap read %s" % hx(bs))
         ops.append("srcmap find %s" % hx(bs))
+    for _ in range(2000 if tier == "thorough" else 300):      # well-formed hints followed by arbitrary bytes
+        n = rng.choice([0, 1, 2, 3, 5, 17, 255, 256, 300])
+        pl = [rng.choice([8, 0, 10, rng.randrange(256)]) for _ in range(n)]
+        tail = [rng.choice([8, 65, rng.randrange(256)]) for _ in range(rng.randrange(0, 4))]
+        ops.append("srcmap read %s" % hx([8, n >> 8, n & 255] + pl + tail))
     for n in (0, 1, 2, 255, 256, 257, 65534, 65535, 65536, 70000):
         for fill in (8, 0, 65):
             ops.append("srcmap writelen %d %d" % (n, fill))
@@ -282,9 +286,6 @@ def filter_tie(chk, tier):
     if bad:
         raise RuntimeError("gvh_c19 lines: " + bad[0])
     chk.compare("filter", ops, impl, model, kind=kind)
-    # independent restatement of hints_removed on the implementation's answers: out == code bytes of the items
-    for s, enc, mode in zip(streams[:nrand], encs[:nrand], modes[:nrand]):
-        pass
     return len(ops)
 
 
